@@ -27,8 +27,6 @@ Proof.
   cbn [flat_map app].
   destruct (N.eqb_spec c 9) as [->|H9]; [reflexivity|].
   cbn [flat_map app].
-  destruct (N.eqb_spec c 26) as [->|H26]; [reflexivity|].
-  cbn [flat_map app].
   destruct (N.eqb_spec c 10) as [->|H10]; [reflexivity|].
   cbn [flat_map app].
   destruct (N.eqb_spec c 13) as [->|H13]; reflexivity.
@@ -88,7 +86,7 @@ Proof.
 Qed.
 
 (* sanity: the converse is false, and the hypotheses-free theorem is non-trivial *)
-Example escape_example : escape_default [97; 39; 92; 26; 10] = [97; 92; 39; 92; 92; 92; 122; 92; 110].
+Example escape_example : escape_default [97; 39; 92; 26; 10] = [97; 92; 39; 92; 92; 26; 92; 110].
 Proof. reflexivity. Qed.
 Example converse_false : escape_default (unescape_default [92; 97]) <> [92; 97].
 Proof. cbv. congruence. Qed.
